@@ -101,6 +101,7 @@ def run_one(ch, env):
         res["digest"] = "all-undefined"
         return res
 
+    common.draw_progress(ch, res)
     sim = Sim(ch, step_cap=80000)
     sim.rootdir = d
     sim.write_yields = (2, 1, 0)[ch.draw(3, kind="write_yields")]
@@ -121,7 +122,7 @@ def run_one(ch, env):
         b = Builder(pio)
         proc = MultiTanProcessor(coll)
         proc.compute_global_pixelization(b)
-        proc.tile(pio, parallel=workers)
+        proc.tile(pio, parallel=workers, **common.pkw())
         box["builder"] = b
 
     main_task = sim.run(main)
